@@ -342,7 +342,9 @@ class NetWorld(World):
         st = {"op": "map", "s": s, "slot": slot, "obs": self._gen_track(r, m), "noise": r.choice([1, 10, 50]),
               "z": self.cfg.get("alt", 0.0) if r.random() < 0.7 else 0.0, "tmode": self.cfg.get("tmode", "inc"),
               "radius": self._gen_radius(r), "tcost": r.choice([1, 10]), "coll": r.random() < 0.3}
-        if r.random() < 0.15:
+        if r.random() < 0.1:
+            st.update({"defaults": True, "noise": 50, "tcost": 10, "radius": 50})      # mapOnNetwork(tracks, network)
+        elif r.random() < 0.15:
             st["debug"] = True            # appends every candidate to observation.dat (simulated disk)
         if r.random() < self.cfg["fault_rate"] * 0.5:
             st["fault"] = {"kind": "interrupt", "at": int(round(10 ** r.uniform(0, 3.3)))}
@@ -665,9 +667,17 @@ class NetWorld(World):
         if m["prepared"] is None:
             raise Skip()
         a, b = self._node(m, st["a"]), self._node(m, st["b"])
-        rv, exc = self.call(net.prepared_shortest_distance, a, b)
+        if (st["a"] + st["b"]) % 3 == 0:
+            rv, exc = self.call(net.prepared_shortest_distance, net.getNode(a), net.getNode(b))
+        else:
+            rv, exc = self.call(net.prepared_shortest_distance, a, b)
         if exc is not None:
             return self._unexpected("C06", exc, "prepared_shortest_distance")
+        has, exc = self.call(net.has_prepared_shortest_distance, a, b)
+        if exc is not None or bool(has) != ((a, b) in m["ptable"]):
+            self.fail("C06", "prepared.has", "has_prepared_shortest_distance(%s, %s)" % (a, b),
+                      (a, b) in m["ptable"], repr(exc) if exc is not None else has)
+            return
         self.observed(rv)
         if m["grown_since_prepare"]:
             self.probe("stale_prepared")          # stale by design: the answer is what the table holds
@@ -1190,6 +1200,9 @@ class NetWorld(World):
                 if exc is None:
                     self.probe("fault_swallowed_by_call")
                 return "fault"
+        elif st.get("defaults"):
+            self.probe("map_matching_with_default_parameters")
+            _, exc = self.call(mapOnNetwork, arg, net)
         else:
             _, exc = self.call(mapOnNetwork, arg, net, st["noise"], st["tcost"], radius, debug)
         if exc is not None:
